@@ -1,0 +1,46 @@
+//! Observation points for deterministic simulation.
+//!
+//! Only compiled with `--cfg virtio_drivers_verif`. The final binary supplies the two functions
+//! declared below (the same link-time technique as `safe-mmio`'s `custom-mmio` feature), so the
+//! library itself stays stateless and `no_std`. With the cfg off nothing here exists.
+
+unsafe extern "Rust" {
+    fn __virtio_drivers_verif_store(kind: u32, queue: u16, index: u16);
+    fn __virtio_drivers_verif_spin(site: u32);
+}
+
+/// A descriptor table entry was written (`index` = descriptor index).
+pub(crate) const STORE_DESC: u32 = 0;
+/// An available ring slot was written (`index` = slot).
+pub(crate) const STORE_AVAIL_RING: u32 = 1;
+/// The available index was written (`index` = new value).
+pub(crate) const STORE_AVAIL_IDX: u32 = 2;
+/// The `used_event` field of the available ring was written (`index` = new value).
+pub(crate) const STORE_USED_EVENT: u32 = 3;
+/// The flags field of the available ring was written (`index` = new value).
+pub(crate) const STORE_AVAIL_FLAGS: u32 = 4;
+
+/// Busy-wait in `VirtQueue::add_notify_wait_pop`.
+pub(crate) const SPIN_QUEUE_WAIT_POP: u32 = 0;
+/// Busy-wait in `VirtIONetRaw::receive_wait`.
+pub(crate) const SPIN_NET_RECEIVE_WAIT: u32 = 1;
+/// Busy-wait in `VirtIOConsole::wait_for_receive`.
+pub(crate) const SPIN_CONSOLE_WAIT_RECEIVE: u32 = 2;
+/// Busy-wait in `VirtIOSound::pcm_xfer`.
+pub(crate) const SPIN_SOUND_PCM_XFER: u32 = 3;
+/// Busy-wait in `VsockConnectionManager::wait_for_event`.
+pub(crate) const SPIN_VSOCK_WAIT_EVENT: u32 = 4;
+
+/// Reports that a store to device-visible queue memory has just been performed.
+#[inline(always)]
+pub(crate) fn store(kind: u32, queue: u16, index: u16) {
+    // SAFETY: The function is provided by the simulation harness and has no preconditions.
+    unsafe { __virtio_drivers_verif_store(kind, queue, index) }
+}
+
+/// Reports one iteration of a busy-wait loop that polls plain memory.
+#[inline(always)]
+pub(crate) fn spin(site: u32) {
+    // SAFETY: The function is provided by the simulation harness and has no preconditions.
+    unsafe { __virtio_drivers_verif_spin(site) }
+}
